@@ -23,10 +23,10 @@ macro "ext_leaf" : tactic => `(tactic| (
   first
   | exact Ext.appendRec _ _ _ _
   | exact Ext.appendRoute _ _
-  | exact Ext.appendCtx _ _ _ _ (fun _ => rfl)
+  | exact Ext.appendCtx _ _ _ _ _ (fun _ => rfl)
   | exact Ext.appendRerun _ _
   | exact Ext.setStatus _ _
-  | exact Ext.of_eq (by simp) (by simp) (by ext_core)))
+  | exact Ext.of_eq (by simp) (by simp) (by ext_core) (by first | rfl | (simp; done))))
 
 syntax "ext_walk" "[" term,* "]" : tactic
 macro_rules
